@@ -367,6 +367,59 @@ def r12_5(ctx, rep):
     obl(rep, f, f.node, "R12.5", len(rets) == 1 and unparse(rets[0].value) == f"LazyVariable({f.params[1]}.name.lexeme)", "identifier -> LazyVariable(name)")
 
 
+def r12_6_printer(ctx, rep, lo):
+    """the printer of operator expressions agrees with the grammar that parses call arguments"""
+    prog = ctx.prog
+    s = lo.methods["__str__"]
+    P = _dict_literal(lo.class_attrs.get("PRECEDENCE")) if "PRECEDENCE" in lo.class_attrs else None
+    if P is None:
+        # printer without a precedence table: the plain forms (and then the injectivity detector below decides)
+        forms = [unparse(n.value) for n in walk_local(s.node) if isinstance(n, ast.Return)]
+        ok = sorted(forms) == sorted(["f'{self.symbol}{self.args[0]}'", "f'{self.args[0]} {self.symbol} {self.args[1]}'"])
+        obl(rep, s, s.node, "R12.6", ok, "unary: symbol+operand; binary: 'left symbol right' with single spaces", str(forms))
+        return
+    P = {k: (v.value if isinstance(v, ast.Constant) else None) for k, v in P.items()}
+    U = lo.class_attrs.get("UNARY_PRECEDENCE")
+    U = U.value if isinstance(U, ast.Constant) else None
+    syms = sorted(C01.PREC.keys() & P.keys())
+    cr = prog.cls("terms.call_resolver.CallResolver")
+    call_lex = {C01.lex_of(ctx, k) for k in _dict_literal(cr.class_attrs["BINARY_OPERATORS"])}
+    missing = sorted(x for x in call_lex if x not in P)
+    rep.check(not missing and all(isinstance(v, int) for v in P.values()), "R12.6", lo.where, lo.qual,
+              "LazyOperator.PRECEDENCE covers every binary operator CallResolver accepts", str(sorted(P)), f"no printing precedence for {missing}")
+    for a in syms:
+        for b in syms:
+            if a < b:
+                want = (C01.PREC[a] > C01.PREC[b]) - (C01.PREC[a] < C01.PREC[b])
+                got = (P[a] > P[b]) - (P[a] < P[b])
+                rep.check(want == got, "R12.6", lo.where, lo.qual,
+                          f"printing precedence of `{a}` vs `{b}` agrees with the grammar that parsed the call", "",
+                          f"the printer ranks `{a}` vs `{b}` differently from the parser: the name of a term would not spell the expression that is evaluated")
+    rep.check(U is not None and all(U > v for v in P.values() if isinstance(v, int)), "R12.6", lo.where, lo.qual,
+              "unary operators print as binding tighter than every binary operator (as they are parsed)", f"UNARY_PRECEDENCE={U}")
+    pr = lo.methods.get("precedence")
+    ok = pr is not None and pr.is_property and "self.UNARY_PRECEDENCE" in unparse(pr.node) and "self.PRECEDENCE[self.symbol]" in unparse(pr.node) \
+        and "len(self.args) == 1" in unparse(pr.node)
+    obl(rep, pr or s, (pr or s).node, "R12.6", ok, "an operator's precedence is UNARY_PRECEDENCE for one operand, PRECEDENCE[symbol] otherwise")
+    so = lo.methods.get("_str_operand")
+    ok = so is not None
+    if ok:
+        arg, right = so.params[1], so.params[2]
+        tests = [unparse(i.test) for i in walk_local(so.node) if isinstance(i, ast.If)]
+        want_t = f"{arg}.precedence < self.precedence or ({arg}.precedence == self.precedence and {right})"
+        want_t2 = f"{arg}.precedence < self.precedence or {arg}.precedence == self.precedence and {right}"
+        rets = sorted(unparse(n.value) for n in walk_local(so.node) if isinstance(n, ast.Return))
+        ok = f"isinstance({arg}, LazyOperator)" in tests and (want_t in tests or want_t2 in tests) and rets == sorted([f"f'({{{arg}}})'", f"str({arg})"])
+    obl(rep, so or s, (so or s).node, "R12.6", ok,
+        "an operand is parenthesised iff it binds looser than its parent, or equally and stands on the right (all binary operators are parsed left-associatively)",
+        "", "the parenthesisation rule of the printer does not match the left-associative precedence grammar")
+    forms = sorted(unparse(n.value) for n in walk_local(s.node) if isinstance(n, ast.Return))
+    defs = {unparse(a_.targets[0]): unparse(a_.value) for a_ in walk_local(s.node) if isinstance(a_, ast.Assign)}
+    ok = forms == sorted(["f'{self.symbol}{self._str_operand(self.args[0], False)}'", "f'{left} {self.symbol} {right}'"]) and \
+        defs.get("left") == "self._str_operand(self.args[0], False)" and defs.get("right") == "self._str_operand(self.args[1], True)"
+    obl(rep, s, s.node, "R12.6", ok, "unary: symbol+operand; binary: 'left symbol right' with single spaces; the right operand is marked as right", str(forms))
+
+
 def r12_6(ctx, rep):
     prog = ctx.prog
     lc = prog.cls("terms.call_resolver.LazyCall")
@@ -383,9 +436,7 @@ def r12_6(ctx, rep):
     eqf = {n.attr for n in ast.walk(lo.methods["__eq__"].node) if is_self_attr(n)}
     strf = {n.attr for n in ast.walk(s.node) if is_self_attr(n)}
     obl(rep, s, s.node, "R12.6", eqf <= strf, f"LazyOperator.__str__ renders every field __eq__ compares: {sorted(eqf)}")
-    forms = [unparse(n.value) for n in walk_local(s.node) if isinstance(n, ast.Return)]
-    ok = sorted(forms) == sorted(["f'{self.symbol}{self.args[0]}'", "f'{self.args[0]} {self.symbol} {self.args[1]}'"])
-    obl(rep, s, s.node, "R12.6", ok, "unary: symbol+operand; binary: 'left symbol right' with single spaces", str(forms))
+    r12_6_printer(ctx, rep, lo)
     lv = prog.cls("terms.call_resolver.LazyValue")
     s = lv.methods["__str__"]
     rets = [unparse(n.value) for n in walk_local(s.node) if isinstance(n, ast.Return)]
@@ -402,7 +453,7 @@ def r12_6(ctx, rep):
     g = prog.fn("terms.call_resolver.CallResolver.visitGroupingExpr")
     erased, _ = C01._passthrough_visit(g, g.params[1])
     s = lo.methods["__str__"]
-    consts = [n.value for n in ast.walk(s.node) if isinstance(n, ast.Constant) and isinstance(n.value, str)]
+    consts = [n.value for m_ in lo.methods.values() for n in ast.walk(m_.node) if isinstance(n, ast.Constant) and isinstance(n.value, str)]
     emits_paren = any("(" in c_ or ")" in c_ for c_ in consts)
     if erased and not emits_paren:
         rep.bad("R12.6", s.where, s.qual, "names are injective on operator trees (parentheses are rendered where grouping matters)",
